@@ -145,7 +145,8 @@ theorem recordSeal_unique {tbl tbl' : List SealRec} {key aad tok : Bytes} {s : B
       split at h
       · rename_i hf
         cases h
-        have hfresh := nonceFresh_spec hf
+        rw [Bool.and_eq_true] at hf
+        have hfresh := nonceFresh_spec hf.1
         intro r₁ h₁ r₂ h₂ hk hn
         simp only [List.mem_cons] at h₁ h₂
         rcases h₁ with h₁ | h₁ <;> rcases h₂ with h₂ | h₂
@@ -462,7 +463,7 @@ def mineEntry (who : Ident) (e : CacheEntry) : Bool := decide ((0 :: identKey wh
 /-- The instance with every cache entry of other identities dropped. -/
 def restrict (who : Ident) (inst : Inst) : Inst := { inst with cache := inst.cache.filter (mineEntry who) }
 
-theorem find?_filter_of_imp {α : Type} (l : List α) (p q : α → Bool) (h : ∀ a, q a = true → p a = true) :
+theorem find_filter_of_imp {α : Type} (l : List α) (p q : α → Bool) (h : ∀ a, q a = true → p a = true) :
     (l.filter p).find? q = l.find? q := by
   rw [List.find?_filter]
   congr 1
@@ -475,7 +476,7 @@ theorem aeadOpen_filter (tbl : List SealRec) (who : Ident) (key nonce aad ct : B
     (h : aad = cursorAad who ∨ aad = callAad who) :
     aeadOpen (tbl.filter (mineRec who)) key nonce aad ct = aeadOpen tbl key nonce aad ct := by
   unfold aeadOpen
-  rw [find?_filter_of_imp]
+  rw [find_filter_of_imp]
   intro r hr
   simp [SealRec.matches] at hr
   simp [mineRec]
@@ -500,7 +501,7 @@ theorem cacheGet_filter (max : Int) (entries : List CacheEntry) (now : Int) (cal
   unfold cacheGet
   split
   · rfl
-  · rw [find?_filter_of_imp]
+  · rw [find_filter_of_imp]
     · split
       · rfl
       · split <;> rfl
